@@ -20,7 +20,81 @@ import agilerl.algorithms.ippo as ippo_mod
 from agilerl.algorithms.ppo import PPO
 from agilerl.algorithms.ippo import IPPO
 
+from agilerl.training.train_on_policy import train_on_policy
+from agilerl.training.train_multi_agent_on_policy import train_multi_agent_on_policy
+
 BAD = -1
+
+
+# ------------------------------------------------------------------ scripted environments for the training loops
+class ScriptedEnv:
+    """(vectorised) gym-style env whose episode ends are scripted: flags[k][e] & 1 = terminated, & 2 = truncated at step k.
+    Observation before step k in env e carries the tag k*8 + e + 1."""
+
+    def __init__(self, E, flags, vec):
+        self.E, self.flags, self.k, self.vec = E, flags, 0, vec
+        if vec:
+            self.num_envs = E
+        self.observation_space = self.single_observation_space = spaces.Box(-1e5, 1e5, (3,), np.float32)
+        self.action_space = self.single_action_space = spaces.Discrete(2)
+
+    def _obs(self):
+        x = np.array([self.k * 8 + e + 1 for e in range(self.E)], np.float32)
+        o = np.stack([x, x + 0.25, x + 0.5], -1)
+        return o if self.vec else o[0]
+
+    def reset(self, **kw):
+        return self._obs(), {}
+
+    def step(self, action):
+        f = self.flags[self.k]
+        self.k += 1
+        term = np.array([bool(c & 1) for c in f]); trunc = np.array([bool(c & 2) for c in f])
+        r = np.array([float(self.k)] * self.E, np.float32)
+        if not self.vec:
+            term, trunc, r = bool(term[0]), bool(trunc[0]), float(r[0])
+        return self._obs(), r, term, trunc, {}
+
+
+class ScriptedMAEnv:
+    """parallel multi-agent analogue: flags[k][agent][e]; observation tag k*64 + agent*8 + e + 1"""
+
+    def __init__(self, ids, E, flags, vec):
+        self.ids, self.agents, self.possible_agents = ids, list(ids), list(ids)
+        self.E, self.flags, self.k, self.vec = E, flags, 0, vec
+        if vec:
+            self.num_envs = E
+        self.osp = spaces.Box(-1e5, 1e5, (3,), np.float32)
+        self.asp = spaces.Discrete(2)
+
+    def observation_space(self, a):
+        return self.osp
+
+    def action_space(self, a):
+        return self.asp
+
+    def _obs(self):
+        out = {}
+        for i, a in enumerate(self.ids):
+            x = np.array([self.k * 64 + i * 8 + e + 1 for e in range(self.E)], np.float32)
+            o = np.stack([x, x + 0.25, x + 0.5], -1)
+            out[a] = o if self.vec else o[0]
+        return out
+
+    def reset(self, **kw):
+        return self._obs(), {a: {} for a in self.ids}
+
+    def step(self, act):
+        f = self.flags[self.k]
+        self.k += 1
+        term, trunc, rew = {}, {}, {}
+        for i, a in enumerate(self.ids):
+            t = np.array([bool(c & 1) for c in f[i]]); u = np.array([bool(c & 2) for c in f[i]])
+            r = np.array([float(self.k)] * self.E, np.float32)
+            if not self.vec:
+                t, u, r = bool(t[0]), bool(u[0]), float(r[0])
+            term[a], trunc[a], rew[a] = t, u, r
+        return self._obs(), rew, term, trunc, {a: {} for a in self.ids}
 NC_PLAIN = {"encoder_config": {"hidden_size": [8], "layer_norm": False, "activation": "ReLU"},
             "head_config": {"hidden_size": [4], "layer_norm": False, "activation": "ReLU"}}
 NC_PARTIAL = {"encoder_config": {"hidden_size": [8]}}          # what a user typically passes
@@ -42,6 +116,8 @@ def obs_space(kind):
         return spaces.Box(-1e5, 1e5, (3,), np.float32)
     if kind == "dict":
         return spaces.Dict({"p": spaces.Box(-1e5, 1e5, (2,), np.float32), "q": spaces.Box(-1e5, 1e5, (3,), np.float32)})
+    if kind == "tuple":
+        return spaces.Tuple((spaces.Box(-1e5, 1e5, (2,), np.float32), spaces.Box(-1e5, 1e5, (3,), np.float32)))
     raise ValueError(kind)
 
 
@@ -60,7 +136,8 @@ def mk_obs(kind, x0s):
     x = np.asarray(x0s, dtype=np.float32)
     if kind == "vector":
         return np.stack([x, x + 0.25, x + 0.5], axis=-1)
-    return {"p": np.stack([x, x + 0.25], axis=-1), "q": np.stack([x + 0.5, x, x], axis=-1)}
+    p, q = np.stack([x, x + 0.25], axis=-1), np.stack([x + 0.5, x, x], axis=-1)
+    return (p, q) if kind == "tuple" else {"p": p, "q": q}
 
 
 def mk_act(kind, tags):
@@ -76,8 +153,8 @@ def dec_obs(kind, o, n):
     if kind == "vector":
         m = np.asarray(o, dtype=np.float64).reshape(n, -1)
         return [int(r[0]) if (r.shape[0] == 3 and r[1] == r[0] + 0.25 and r[2] == r[0] + 0.5 and float(r[0]).is_integer()) else BAD for r in m]
-    p = np.asarray(o["p"], dtype=np.float64).reshape(n, -1)
-    q = np.asarray(o["q"], dtype=np.float64).reshape(n, -1)
+    p = np.asarray(o[0] if kind == "tuple" else o["p"], dtype=np.float64).reshape(n, -1)
+    q = np.asarray(o[1] if kind == "tuple" else o["q"], dtype=np.float64).reshape(n, -1)
     if p.shape[1] != 2 or q.shape[1] != 3:
         return [BAD] * n
     return [int(a[0]) if (a[1] == a[0] + 0.25 and b[0] == a[0] + 0.5 and b[1] == a[0] and b[2] == a[0] and float(a[0]).is_integer()) else BAD
@@ -207,7 +284,7 @@ class C17(vlib.Driver):
             vec = rng.random() < 0.8
             E = rng.choice([1, 2, 3, 4]) if vec else 1
             cases.append(self.mk_case(rng, "ppo", T, E, [self.rand_group(rng, T, 1, E, exact, p_done=rng.choice([0.15, 0.3, 0.6]))],
-                                      vec=vec, exact=exact, obs=rng.choice(["vector", "vector", "dict"]),
+                                      vec=vec, exact=exact, obs=rng.choice(["vector", "vector", "dict", "tuple"]),
                                       act=rng.choice(["box2", "box1", "discrete"]), net=rng.choice(["plain", "partial"]),
                                       share=rng.random() < 0.3))
         for _ in range(n_ippo):
@@ -220,8 +297,18 @@ class C17(vlib.Driver):
             if rng.random() < 0.3:
                 groups.append(self.rand_group(rng, T, rng.choice([1, 2]), E, exact))
             cases.append(self.mk_case(rng, "ippo", T, E, groups, vec=vec, exact=exact,
-                                      obs=rng.choice(["vector", "vector", "dict"]),
+                                      obs=rng.choice(["vector", "vector", "dict", "tuple"]),
                                       act=rng.choice(["box2", "box1", "discrete"]), net=rng.choice(["plain", "partial"])))
+        # (d) the training loops with scripted episode ends: which flags reach learn()
+        for _ in range(24 if quick else 200):
+            ma = rng.random() < 0.5
+            vec = rng.random() < 0.75
+            E = rng.choice([1, 2, 3]) if vec else 1
+            A = rng.choice([1, 2, 3]) if ma else 1
+            T = rng.choice([2, 3, 4, 6]); chunks = rng.choice([1, 2])
+            p = rng.choice([0.2, 0.5])
+            flags = [[[rng.choice([1, 2, 3]) if rng.random() < p else 0 for _ in range(E)] for _ in range(A)] for _ in range(T * chunks)]
+            cases.append({"algo": "loop_ippo" if ma else "loop_ppo", "T": T, "E": E, "A": A, "vec": vec, "chunks": chunks, "flags": flags})
         return cases
 
     # ---------- implementation
@@ -231,7 +318,7 @@ class C17(vlib.Driver):
         if k in self._agents:
             return self._agents[k]
         nc = NC_PLAIN if case["net"] == "plain" else NC_PARTIAL
-        if case["obs"] == "dict":                   # multi-input encoder: only the head is configured
+        if case["obs"] in ("dict", "tuple"):        # multi-input encoder: only the head is configured
             nc = {"head_config": {"hidden_size": [4]}} if case["net"] == "plain" else None
         nc = copy.deepcopy(nc)
         if case["algo"] == "ppo":
@@ -270,7 +357,8 @@ class C17(vlib.Driver):
 
         def per_agent(a, g):
             tg = lambda t: [tag(t, a, e) for e in range(E)]
-            sq = (lambda x: x) if vec else (lambda x: ({k: v[0] for k, v in x.items()} if isinstance(x, dict) else x[0]))
+            sq = (lambda x: x) if vec else (lambda x: ({k: v[0] for k, v in x.items()} if isinstance(x, dict) else
+                                                   (tuple(v[0] for v in x) if isinstance(x, tuple) else x[0])))
             st = [sq(mk_obs(ok, tg(t))) for t in range(T)]
             ac = [sq(mk_act(ak, tg(t))) for t in range(T)]
             lp = [sq(np.asarray(tg(t), dtype=np.float32)) for t in range(T)]
@@ -328,7 +416,13 @@ class C17(vlib.Driver):
             rows = [list(r) for r in dec(exps)]
             mini_bad = 0
             # (a single-sample batch is never trained on: reshape_from_space drops its batch axis, skip it)
-            for idx, out in (cp["mini"] if n > 1 else []):
+            extra = []
+            if n > 1:       # the gather itself, on index sets larger than the one-row minibatches of this run
+                r2 = random.Random(n * 7919 + (case.get("leak_seed") or 0))
+                for _ in range(2):
+                    idx = np.array(r2.sample(range(n), min(n, r2.randint(2, 6))))
+                    extra.append((idx.tolist(), orig(idx, *exps)))
+            for idx, out in ((cp["mini"] + extra) if n > 1 else []):
                 got = [list(r) for r in dec(out)] if len(idx) else []
                 if got != [rows[i] for i in idx]:
                     mini_bad += 1
@@ -337,7 +431,50 @@ class C17(vlib.Driver):
         dyadic = all(float(v * 8).is_integer() and abs(v) <= 64 for g in nvs for row in g for v in row)
         return {"error": err, "groups": groups, "nv": nvs, "exact": bool(case["exact"] and dyadic)}
 
+    def run_loop(self, case):
+        """one generation of the real training loop on a scripted env; learn() is wrapped to record what it is handed"""
+        T, E, A, vec, chunks = case["T"], case["E"], case["A"], case["vec"], case["chunks"]
+        ma = case["algo"] == "loop_ippo"
+        nc = copy.deepcopy(NC_PARTIAL)
+        if ma:
+            ids = [f"agent_{i}" for i in range(A)]
+            env = ScriptedMAEnv(ids, E, case["flags"], vec)
+            ag = IPPO([env.osp] * A, [env.asp] * A, ids, net_config=nc, learn_step=T * E, batch_size=1, update_epochs=1)
+        else:
+            ids = None
+            env = ScriptedEnv(E, [f[0] for f in case["flags"]], vec)
+            ag = PPO(env.observation_space, env.action_space, net_config=nc, learn_step=T * E, batch_size=1, update_epochs=1)
+        calls = []
+        real = ag.learn
+
+        def rec(exps):
+            st, ac, lp, rw, dn, vl, ns, nd = exps
+            tg = lambda o: [int(v) for v in np.asarray(o, dtype=np.float64).reshape(-1, 3)[:, 0]]
+            fl = lambda x: [float(v) for v in np.asarray(x, dtype=np.float64).reshape(-1)]
+            if ma:
+                c = {"dones": [[fl(d) for d in dn[a]] for a in ids], "next_done": [fl(nd[a]) for a in ids],
+                     "states": [[tg(o) for o in st[a]] for a in ids], "next_state": [tg(ns[a]) for a in ids]}
+            else:
+                c = {"dones": [[fl(d) for d in dn]], "next_done": [fl(nd)], "states": [[tg(o) for o in st]], "next_state": [tg(ns)]}
+            try:
+                out = real(exps)
+                c["learn_error"] = None
+            except Exception as e:
+                c["learn_error"] = f"{type(e).__name__}: {str(e)[:200]}"
+                out = {k: 0.0 for k in ag.shared_agent_ids} if ma else 0.0
+            calls.append(c)
+            return out
+        ag.learn = rec
+        ag.test = lambda *a, **k: 0.0
+        import contextlib, io
+        with contextlib.redirect_stdout(io.StringIO()), contextlib.redirect_stderr(io.StringIO()):
+            fn = train_multi_agent_on_policy if ma else train_on_policy
+            fn(env, "scripted", "IPPO" if ma else "PPO", [ag], max_steps=1, evo_steps=chunks * T * E, verbose=False, wb=False)
+        return {"error": None, "calls": calls, "steps": env.k}
+
     def run_impl(self, case):
+        if case["algo"].startswith("loop"):
+            return self.run_loop(case)
         if not hasattr(ppo_mod, "get_experiences_samples") or not hasattr(ippo_mod, "get_experiences_samples"):
             raise RuntimeError("entry point get_experiences_samples not found in agilerl.algorithms.ppo / ippo")
         obs = self.learn_capture(case, case["groups"])
@@ -362,7 +499,8 @@ class C17(vlib.Driver):
                             h["nd"][a][e] = 1
                     data2.append(h)
                 o2 = self.learn_capture(case, data2)
-                obs["leak"] = {"pick": [gi, a, e, k], "error": o2["error"], "groups": o2["groups"]}
+                obs["leak"] = {"pick": [gi, a, e, k], "error": o2["error"], "groups": o2["groups"], "nv": o2["nv"],
+                               "exact": o2["exact"], "data": data2}
         return obs
 
     def leak_pick(self, case):
@@ -382,7 +520,33 @@ class C17(vlib.Driver):
         """does the observation show exactly the pinned next_done ordering (known finding)?"""
         return any(v.signature == "ippo:next_done-order" for v in self.oracle(case, obs))
 
+    def loop_cols(self, case, obs):
+        """[(chunk, agent, env, env flags of the chunk, recorded dones, recorded next_done)]"""
+        T = case["T"]
+        out = []
+        for ci, c in enumerate(obs["calls"]):
+            for a in range(case["A"]):
+                for e in range(case["E"]):
+                    fl = [1 if case["flags"][ci * T + t][a][e] else 0 for t in range(T)]
+                    try:
+                        ds = [c["dones"][a][t][e] for t in range(len(c["dones"][a]))]
+                        nd = c["next_done"][a][e]
+                    except IndexError:
+                        ds, nd = None, None
+                    out.append((ci, a, e, fl, ds, nd))
+        return out
+
     def coq_term(self, case, obs):
+        if case["algo"].startswith("loop"):
+            if len(obs["calls"]) != case["chunks"]:
+                return "false"
+            ts = []
+            for ci, a, e, fl, ds, nd in self.loop_cols(case, obs):
+                if ds is None:
+                    return "false"
+                ql = lambda xs: "[" + "; ".join(coq_Q(x) for x in xs) + "]"
+                ts.append(f"check_dones {ql(fl)} {ql(ds)} {coq_Q(nd)}")
+            return "(" + " && ".join(f"({t})" for t in ts) + ")%bool"
         if obs["error"] is not None or len(obs["groups"]) != len(case["groups"]):
             return None
         T, E = case["T"], case["E"]
@@ -407,7 +571,39 @@ class C17(vlib.Driver):
         return "(" + " && ".join(f"({t})" for t in terms) + ")%bool"
 
     # ---------- oracle: the property stated directly on what learn() handed to its minibatch loop
+    def oracle_loop(self, case, obs):
+        out = []
+        algo, T, E, A = case["algo"], case["T"], case["E"], case["A"]
+        where = f"{algo} T={T} agents={A} envs={E} vec={case['vec']}"
+        if len(obs["calls"]) != case["chunks"] or obs["steps"] != T * case["chunks"]:
+            return [Violation("loop-shape", f"{algo}:learn-calls", f"{where}: {len(obs['calls'])} learn calls / {obs['steps']} env steps, "
+                              f"expected {case['chunks']} / {T * case['chunks']}")]
+        for ci, a, e, fl, ds, nd in self.loop_cols(case, obs):
+            want = [0] + fl[:-1]
+            if ds is None or [int(x) for x in ds] != want or int(nd) != fl[-1] or any(float(x) not in (0.0, 1.0) for x in ds):
+                out.append(Violation("done-convention", f"{algo}:done-convention",
+                                     f"{where}: rollout {ci}, agent {a}, env {e}: the environment ended episodes at steps "
+                                     f"{[t for t, x in enumerate(fl) if x]}; learn() was handed dones={ds} next_done={nd}, expected dones={want} "
+                                     f"next_done={fl[-1]} (flag of the previous step, zeros first, last flag as next_done)"))
+                break
+        mult = 64 if algo == "loop_ippo" else 8
+        for ci, c in enumerate(obs["calls"]):
+            for a in range(A):
+                want = [[(ci * T + t) * mult + (a * 8 if algo == "loop_ippo" else 0) + e + 1 for e in range(E)] for t in range(T)]
+                wn = [(ci * T + T) * mult + (a * 8 if algo == "loop_ippo" else 0) + e + 1 for e in range(E)]
+                if c["states"][a] != want or c["next_state"][a] != wn:
+                    out.append(Violation("rollout-order", f"{algo}:states-order",
+                                         f"{where}: rollout {ci}, agent {a}: states {c['states'][a]} next_state {c['next_state'][a]}, expected {want} / {wn}"))
+                    break
+            if c["learn_error"] is not None:
+                out.append(Violation("learn-completes", f"{algo}:learn-raises:vec={case['vec']}",
+                                     f"{where}: learn() raised on the rollout recorded by the training loop: {c['learn_error']}"))
+                break
+        return out
+
     def oracle(self, case, obs):
+        if case["algo"].startswith("loop"):
+            return self.oracle_loop(case, obs)
         out = []
         algo, T, E = case["algo"], case["T"], case["E"]
         exact = bool(obs.get("exact", case["exact"]))
@@ -482,8 +678,14 @@ class C17(vlib.Driver):
         lk = obs.get("leak")
         if lk is not None and not out:
             gi, a, e, k = lk["pick"]
-            if lk["error"] is not None or len(lk["groups"]) != len(case["groups"]):
-                out.append(Violation("no-leak", f"{algo}:no-leak:second-run-failed", f"second run failed: {lk['error']}"))
+            # the second rollout is an input like any other: if it shows a violation by itself, report that one
+            case2 = dict(case); case2["groups"] = lk["data"]; case2["leak_seed"] = None
+            out2 = self.oracle(case2, {"error": lk["error"], "groups": lk["groups"], "nv": lk["nv"], "exact": lk["exact"], "leak": None})
+            if out2:
+                for v in out2:
+                    v.case = case2
+                    v.obs = {"error": lk["error"], "groups": lk["groups"], "nv": lk["nv"], "exact": lk["exact"], "leak": None}
+                out += out2
             else:
                 def by_tag(rows):
                     return {r[0]: r for r in rows}
@@ -501,10 +703,16 @@ class C17(vlib.Driver):
 
     # ---------- evidence helpers
     def placement(self, case):
+        if case["algo"].startswith("loop"):
+            T = case["T"]
+            return [[[1 if case["flags"][ci * T + t][a][e] else 0 for t in range(T)] for e in range(case["E"])]
+                    for ci in range(case["chunks"]) for a in range(case["A"])]
         return [[[int(g["D"][a][t][e]) for t in range(1, case["T"])] + [int(g["nd"][a][e])] for e in range(case["E"])]
                 for g in case["groups"] for a in range(g["A"])]
 
     def key(self, case):
+        if case["algo"].startswith("loop"):
+            return super().key({k: case[k] for k in ("algo", "T", "E", "A", "vec", "chunks")} | {"d": self.placement(case)})
         return super().key({"algo": case["algo"], "T": case["T"], "E": case["E"], "A": [g["A"] for g in case["groups"]],
                             "vec": case["vec"], "d": self.placement(case)})
 
@@ -512,6 +720,11 @@ class C17(vlib.Driver):
         return any(any(col[:-1]) for ag in self.placement(case) for col in ag)
 
     def classify(self, case, obs):
+        if case["algo"].startswith("loop"):
+            labs = [f"algo={case['algo']}", f"T={case['T']}", f"E={case['E']}", f"A={case['A']}", f"vec={case['vec']}", f"rollouts={case['chunks']}"]
+            if self.nontrivial(case, obs):
+                labs.append("episode-end-inside")
+            return labs
         A = case["groups"][0]["A"]
         labs = [f"algo={case['algo']}", f"T={case['T'] if case['T'] <= 8 else '>8'}", f"E={case['E']}", f"A={A}",
                 f"vec={case['vec']}", f"exact={case['exact']}", f"obs={case['obs']}", f"act={case['act']}", f"net={case['net']}",
@@ -534,6 +747,8 @@ class C17(vlib.Driver):
         return labs
 
     def neighbours(self, case, rng):
+        if case["algo"].startswith("loop"):
+            return
         for i in range(4):
             c = dict(case)
             c["groups"] = [self.rand_group(rng, case["T"], g["A"], case["E"], True, p_done=0.4) for g in case["groups"]]
